@@ -214,6 +214,11 @@ _selfcheck_roots()
 # -------------------------------------------------------------------------------------------------
 # operands shared by roots and integrals
 
+# central value of d for a preceding call with the same function object (root far from every root of the family's domain,
+# still reached by fsolve from the default start 1.0)
+DECOY = {'exp': 1e-9, 'log': 20.0}
+
+
 def chance(k):
     """True with probability 1/k (st.integers would favour the boundary values)"""
     return st.sampled_from([True] + [False] * (k - 1))
@@ -278,11 +283,16 @@ def ens_sets(specs):
 @st.composite
 def root_case(draw, tier):
     name = draw(st.sampled_from(sorted(ROOT) + ['gcubic', 'linear2', 'powscale', 'expscale', 'tanh2', 'lin4']))
+    forced_default = draw(chance(12))
+    if forced_default:
+        name = draw(st.sampled_from(sorted(DECOY)))      # default start value, preceded by a call with the same function object
     fam = ROOT[name]
     n = fam['n']
     k = draw(st.sampled_from(POW_K)) if 'pow' in name else None
     sc = fam.get('scale')
     targets = [draw(dom_value([(lo / sc, hi / sc) for lo, hi in dom] if sc else dom)) for dom in fam['dom']]
+    if forced_default:
+        targets = [draw(gen.fl(1.6, 4.5)) if name == 'exp' else draw(gen.fl(-0.5, 0.5))]      # root within reach of the default start 1.0
     excluded = []
     if targets[0] == -EPS and findings.is_open('F-C09-2'):
         targets[0] = 0.0      # known finding: central value of d[0] exactly -eps gives a NaN root
@@ -311,6 +321,9 @@ def root_case(draw, tier):
     else:
         g = {'off': draw(gen.fl(-0.5, 0.5))}
     g['mode'] = draw(st.sampled_from(['float', 'float', 'int', 'default', 'exact']))
+    g['decoy'] = draw(st.booleans())
+    if forced_default:
+        g['mode'], g['decoy'] = 'default', True
     return {'fam': name, 'k': k, 'targets': targets, 'alias': alias, 'ops': ops,
             'raw': [draw(st.booleans()) for _ in idx], 'dform': dform, 'guess': g, 'excluded': excluded}
 
@@ -393,6 +406,15 @@ def root_oracle(spec):
     else:
         darg = np.array(ds)
     if guess is None:
+        if g.get('decoy') and name in DECOY and n == 1:
+            # state between calls: the same function object was used just before for a d whose root lies far away
+            # (the documented default start is 1.0 in every call)
+            dec = ds[0] - float(ds[0].value) + DECOY[name]
+            try:
+                pe.find_root(dec if scalar else (np.array([dec]) if spec['dform'] == 'array' else [dec]), func)
+                labs.add('decoy_call_before')
+            except Exception:
+                labs.add('decoy_call_failed')
         res = pe.find_root(darg, func)
     else:
         res = pe.roots.find_root(darg, func, guess)
@@ -527,6 +549,17 @@ QUAD = {
                    Bf=lambda p, x: abs(p[0]),
                    BF=lambda p, x: abs(p[0] / p[1]),
                    BG=lambda p, x: [abs(1 / p[1]), abs(p[0]) * (1 / p[1] ** 2 + abs(x / p[1])), abs(p[0] / p[1])]),
+    # two parameters whose derivative integrals differ by ten orders of magnitude, the small one sharply peaked at 0: each
+    # derivative integral has to be resolved on its own scale
+    'twoscale': dict(np=2, pdom=[[(0.5, 3.0)], [(0.5, 3.0)]], ldom=[(0.0, 1.5)], selfcheck_scale=1e7,
+                     pe=lambda anp, p, x: p[0] * 1e7 * x + p[1] * anp.exp(-2000.0 * x),
+                     f=lambda p, x: p[0] * 1e7 * x + p[1] * np.exp(-2000.0 * x),
+                     F=lambda p, x: p[0] * 1e7 * x ** 2 / 2 - p[1] * np.exp(-2000.0 * x) / 2000.0,
+                     df=lambda p, x: [1e7 * x, np.exp(-2000.0 * x)],
+                     G=lambda p, x: [1e7 * x ** 2 / 2, -np.exp(-2000.0 * x) / 2000.0],
+                     Bf=lambda p, x: abs(p[0] * 1e7 * x) + abs(p[1] * np.exp(-2000.0 * x)),
+                     BF=lambda p, x: abs(p[0] * 1e7 * x ** 2 / 2) + abs(p[1] * np.exp(-2000.0 * x) / 2000.0),
+                     BG=lambda p, x: [abs(1e7 * x ** 2 / 2), abs(np.exp(-2000.0 * x) / 2000.0)]),
     'laurent': dict(np=3, pdom=[[(-3.0, 3.0)]] * 3, ldom=[(0.2, 3.0)],          # the integrand of the repository's own test
                     pe=lambda anp, p, x: p[0] * x + p[1] * x ** 2 - p[2] / x,
                     f=lambda p, x: p[0] * x + p[1] * x ** 2 - p[2] / x,
@@ -567,7 +600,7 @@ def _selfcheck_quad():
                 p.append(float(rs.uniform(lo, hi)))
             lo, hi = fam['ldom'][0]
             x = float(rs.uniform(lo, hi))
-            sc = 10.0
+            sc = 10.0 * fam.get('selfcheck_scale', 1.0)
             assert abs((fam['F'](p, x + h) - fam['F'](p, x - h)) / (2 * h) - fam['f'](p, x)) <= 1e-7 * sc, (name, 'F')
             for i in range(fam['np']):
                 pp, pm = list(p), list(p)
@@ -677,7 +710,17 @@ def quad_case(draw, tier):
         if not mask[i] and not isinstance(vals[i], str):
             vals[i] = maybe_int(draw, vals[i], doms[i])
     idx = [i for i in range(n + 2) if mask[i] and not (alias and i == alias[1])]
+    if name == 'twoscale':
+        # both parameters observables, the limits plain numbers around the peak: [0 or small, beyond the peak]
+        mask = [True, True, False, False]
+        alias = None
+        vals[2] = draw(st.sampled_from([0.0, 0.0, 1e-4]))
+        vals[3] = draw(gen.fl(0.05, 1.5))
+        idx = [0, 1]
     ops = draw(operand_specs([vals[i] for i in idx], tier))
+    if name == 'twoscale':
+        for c in ops[1]['chains']:       # the second parameter on an ensemble of its own: its fluctuations are visible by themselves
+            c['name'] = 'ZQ' + c['name']
     spec = {'fam': name, 'vals': vals, 'mask': mask, 'alias': alias, 'ops': ops, 'raw': [draw(st.booleans()) for _ in idx],
             'pform': draw(st.sampled_from(['list', 'list', 'tuple', 'array'])), 'kw': draw(quad_kwargs())}
     if dummy:
@@ -743,9 +786,12 @@ def quad_oracle(spec):
         # On infinite ranges QUADPACK's error estimate is not a bound (measured: int_0^inf exp(-1.459 x) dx is off by
         # 1.5e-8 with a reported 7e-10); what can be relied on there is the accuracy that was asked for.
         return 10 * max(kw.get('epsabs', 1.49e-8), kw.get('epsrel', 1.49e-8) * abs(exact)) if infinite else 0.0
+    # (family 'twoscale': the narrow peak is far below the accuracy requested for the *value*, QUADPACK does not see it and
+    # its error estimate does not know; the derivative integrals are judged on their own scales below)
+    asked_value = (10 * max(kw.get('epsabs', 1.49e-8), kw.get('epsrel', 1.49e-8) * abs(want)) + 2.0 * abs(pv[1]) / 2000.0) if spec['fam'] == 'twoscale' else asked(want)
     _, e0 = sq(squad, lambda x: fam['f'](pv, x), a, b, kw)
     s0, _ = sq(squad, lambda x: abs(fam['f'](pv, x)), min(a, b), max(a, b), {})
-    tol = 10 * e0 + 1e-11 * s0 + 1e-14 * (float(at(fam['BF'], a)) + float(at(fam['BF'], b))) + asked(want) + 1e-290   # denormal floor
+    tol = 10 * e0 + 1e-11 * s0 + 1e-14 * (float(at(fam['BF'], a)) + float(at(fam['BF'], b))) + asked_value + 1e-290   # denormal floor
     require(abs(float(res.value) - want) <= tol, what + ': value of the integral differs from F(b) - F(a)', float(res.value), want,
             'tolerance %.3g' % tol, {'p': pv, 'a': a, 'b': b})
     Ga, Gb = at(fam['G'], a), at(fam['G'], b)
@@ -822,7 +868,8 @@ def scipy_case(draw, tier):
     for i in range(n + 2):
         if not isinstance(vals[i], str) and not (name in ('sinoff', 'cosmix') and i == 1):
             vals[i] = maybe_int(draw, vals[i], doms[i])
-    return {'fam': name, 'vals': vals, 'kw': kw, 'pform': draw(st.sampled_from(['list', 'tuple', 'array']))}
+    cplx = draw(chance(5)) and 'weight' not in kw
+    return {'fam': name, 'vals': vals, 'kw': kw, 'pform': draw(st.sampled_from(['list', 'tuple', 'array'])), 'cplx': bool(cplx)}
 
 
 def scipy_oracle(spec):
@@ -836,12 +883,17 @@ def scipy_oracle(spec):
     kw = real_kwargs(spec['kw'], float(a), float(b))
     p_arg = {'list': list, 'tuple': tuple, 'array': np.array}[spec['pform']](p)
 
+    cplx = bool(spec.get('cplx'))
+    cfac = (1.0 + 0.5j) if cplx else 1.0
+    if cplx:
+        kw['complex_func'] = True      # scipy's option for complex-valued integrands
+
     def func(p, x):
-        return fam['pe'](anp, p, x)
+        return cfac * fam['pe'](anp, p, x)
     pv = np.array(p)
     exc = None
     try:
-        want = squad(lambda x: fam['f'](pv, x), a, b, **kw)
+        want = squad(lambda x: cfac * fam['f'](pv, x), a, b, **kw)
     except Exception as e:
         exc = e
     try:
@@ -853,16 +905,18 @@ def scipy_oracle(spec):
     require(exc is None, 'quad returned although scipy.integrate.quad raises', repr(exc))
     require(isinstance(got, tuple) and len(got) == len(want), 'result is not the tuple scipy returns', type(got).__name__,
             len(got) if isinstance(got, tuple) else None, len(want))
-    require(not isinstance(got[0], pe.Obs) and isinstance(got[0], float), 'first element must be the plain float of scipy', type(got[0]).__name__)
+    require(not isinstance(got[0], pe.Obs) and isinstance(got[0], (complex, float) if cplx else float) and
+            isinstance(got[0], complex) == isinstance(want[0], complex), 'first element must be the plain number scipy returns',
+            type(got[0]).__name__, type(want[0]).__name__)
     # same routine on the same integrand: identical up to the last bits of a differently associated evaluation
-    require(abs(got[0] - want[0]) <= 1e-13 * abs(want[0]) + 1e-3 * want[1] + 1e-300, 'value differs from scipy.integrate.quad', got[0], want[0])
-    require(abs(got[1] - want[1]) <= 1e-3 * want[1] + 1e-13 * abs(want[0]) + 1e-300, 'abserr differs from scipy.integrate.quad', got[1], want[1])
-    if len(want) > 2:
+    require(abs(got[0] - want[0]) <= 1e-13 * abs(want[0]) + 1e-3 * abs(want[1]) + 1e-300, 'value differs from scipy.integrate.quad', got[0], want[0])
+    require(abs(got[1] - want[1]) <= 1e-3 * abs(want[1]) + 1e-13 * abs(want[0]) + 1e-300, 'abserr differs from scipy.integrate.quad', got[1], want[1])
+    if len(want) > 2 and not cplx:
         for key in ('neval', 'last'):
             require(got[2][key] == want[2][key], 'infodict[%r] differs from scipy.integrate.quad' % key, got[2][key], want[2][key])
         if len(want) > 3:
             require(got[3] == want[3], 'message differs from scipy', got[3], want[3])
-    labs = ['fam:' + spec['fam'], 'kw:' + ('+'.join(sorted(spec['kw'])) or 'none'), 'pform:' + spec['pform'], 'len:%d' % len(want)]
+    labs = ['fam:' + spec['fam'], 'kw:' + ('+'.join(sorted(spec['kw'])) or 'none'), 'pform:' + spec['pform'], 'len:%d' % len(want)] + (['complex_func'] if cplx else [])
     inf = any(isinstance(v, str) for v in spec['vals'])
     if inf:
         labs.append('infinite_limit')
